@@ -55,6 +55,7 @@ import (
 	"github.com/lightningnetwork/lnd/lntypes"
 	"github.com/lightningnetwork/lnd/lnwallet"
 	"github.com/lightningnetwork/lnd/lnwallet/chainfee"
+	"github.com/lightningnetwork/lnd/tlv"
 )
 
 // ---------------------------------------------------------------- schedule
@@ -67,9 +68,9 @@ type c18Event struct {
 	Est      int64  `json:"est"`
 	Relay    int64  `json:"relay"`
 	Budget   int64  `json:"budget"`
-	NK       int    `json:"nk"`   // number of plain p2wkh inputs
-	NT       int    `json:"nt"`   // number of p2tr key-spend inputs
-	NR       int    `json:"nr"`   // number of inputs with a required output
+	NK       int    `json:"nk"` // number of plain p2wkh inputs
+	NT       int    `json:"nt"` // number of p2tr key-spend inputs
+	NR       int    `json:"nr"` // number of inputs with a required output
 	TotalIn  int64  `json:"totalin"`
 	ReqOut   int64  `json:"reqout"`
 	Dust     int64  `json:"dust"` // 294: p2wkh change script, 330: p2tr
@@ -87,6 +88,10 @@ type c18Event struct {
 	NA int   `json:"na"`
 	PW int64 `json:"pw"`
 	PF int64 `json:"pf"`
+	// aux sweeper (custom channels): value of the extra output it adds to every
+	// sweep tx (0: no aux sweeper) and its extra budget (part of Budget)
+	XOut    int64 `json:"xout"`
+	XBudget int64 `json:"xbudget"`
 }
 
 // ---------------------------------------------------------------- fakes
@@ -163,12 +168,71 @@ func (a *c18Agg) ClusterInputs(inputs InputsMap) []InputSet {
 			list = append(list, *pi)
 		}
 	}
-	bs, err := NewBudgetInputSet(list, a.run.deadline, fn.None[AuxSweeper]())
+	bs, err := NewBudgetInputSet(list, a.run.deadline, a.run.auxOpt())
 	if err != nil {
 		return nil
 	}
 	a.sets = []InputSet{bs}
 	return a.sets
+}
+
+// c18Aux is the aux sweeper of a node with custom channels: for a set of
+// inputs of which one carries a resolution blob it adds one extra (p2tr)
+// output of a fixed value to the sweep tx, and it contributes an extra budget
+// for the input `first'.
+type c18Aux struct {
+	xout    int64
+	xbudget int64
+	first   wire.OutPoint
+}
+
+func c18HasBlob(ins []input.Input) bool {
+	for _, in := range ins {
+		if in.ResolutionBlob().IsSome() {
+			return true
+		}
+	}
+	return false
+}
+
+var c18ErrNoBlob = errors.New("c18: no custom channel input")
+
+func (a *c18Aux) DeriveSweepAddr(ins []input.Input, _ lnwallet.AddrWithKey) fn.Result[SweepOutput] {
+	if !c18HasBlob(ins) {
+		return fn.Err[SweepOutput](c18ErrNoBlob)
+	}
+	return fn.Ok(SweepOutput{TxOut: wire.TxOut{Value: a.xout, PkScript: c18Script('t', 0x5555)}, IsExtra: true,
+		InternalKey: fn.None[keychain.KeyDescriptor]()})
+}
+
+func (a *c18Aux) ExtraBudgetForInputs(ins []input.Input) fn.Result[btcutil.Amount] {
+	for _, in := range ins {
+		if in.OutPoint() == a.first {
+			return fn.Ok(btcutil.Amount(a.xbudget))
+		}
+	}
+	return fn.Ok(btcutil.Amount(0))
+}
+
+func (a *c18Aux) NotifyBroadcast(*BumpRequest, *wire.MsgTx, btcutil.Amount, map[wire.OutPoint]int) error {
+	return nil
+}
+
+func (r *c18Run) auxOpt() fn.Option[AuxSweeper] {
+	if r.aux == nil {
+		return fn.None[AuxSweeper]()
+	}
+	return fn.Some[AuxSweeper](r.aux)
+}
+
+// outScripts: the scripts of the non-required outputs of the tx that is built
+// for these inputs (the change, and the aux sweeper's extra output).
+func (r *c18Run) outScripts(ins []input.Input) [][]byte {
+	s := [][]byte{r.change}
+	if r.aux != nil && c18HasBlob(ins) {
+		s = append(s, c18Script('t', 0x5555))
+	}
+	return s
 }
 
 type c18Wallet struct {
@@ -303,6 +367,8 @@ func c18Err(err error) string {
 		return "minfee"
 	case errors.Is(err, c18ErrPublish):
 		return "publish"
+	case errors.Is(err, ErrUnknownSpent):
+		return "unknownspend"
 	}
 	return "other:" + err.Error()
 }
@@ -338,6 +404,13 @@ type c18Run struct {
 	order    []wire.OutPoint
 	deadline int32
 	set      InputSet
+	aux      *c18Aux // nil: no aux sweeper
+
+	// retry history (c18_life_test.go)
+	decorate  func(verifkit.Rec) // extra fields of a request line
+	afterDone func()             // the sweeper handles the result just delivered
+	life      []input.Input      // the inputs offered, by number
+	captured  bool               // a round already ran inside handleBumpEvent
 }
 
 func (r *c18Run) next(q *[]string) string {
@@ -356,7 +429,9 @@ func (r *c18Run) base(a string) verifkit.Rec {
 		"maxallowed": 0, "live": 0, "start": 0, "end": 0, "width": 0, "pos": 0, "cur": 0, "delta": 0,
 		"inc": 0, "err": "none", "rate": 0, "fee": 0, "change": 0, "nout": 0, "outs": [][]int64{},
 		"ins": []int{}, "ans": "", "event": "", "wallet": 0, "prevs": []int64{}, "cfgvb": 0,
-		"budgets": []int64{}, "deadlines": []int64{}, "parents": [][]int64{}}
+		"budgets": []int64{}, "deadlines": []int64{}, "parents": [][]int64{}, "xout": 0, "xbudget": 0,
+		"ids": []int{}, "states": []string{}, "starts": []int64{}, "lbudgets": []int64{}, "lwus": []int64{},
+		"lvalues": []int64{}}
 }
 
 func (r *c18Run) ffFields(rec verifkit.Rec, f *LinearFeeFunction) {
@@ -438,8 +513,12 @@ func (r *c18Run) mkInput(kind byte, value int64, reqOut int64) input.Input {
 		wt = input.TaprootPubKeySpend
 		pk = c18Script('t', r.nin)
 	}
+	var opts []input.InputOpt
+	if r.aux != nil { // an output of a custom channel
+		opts = append(opts, input.WithResolutionBlob(fn.Some(tlv.Blob{0x01, byte(r.nin)})))
+	}
 	bi := input.NewBaseInput(&wire.OutPoint{Hash: h, Index: uint32(r.nin % 3)}, wt,
-		&input.SignDescriptor{Output: &wire.TxOut{Value: value, PkScript: pk}, KeyDesc: *c18Key}, 1)
+		&input.SignDescriptor{Output: &wire.TxOut{Value: value, PkScript: pk}, KeyDesc: *c18Key}, 1, opts...)
 	if reqOut >= 0 {
 		return &c18ReqInput{BaseInput: bi, out: &wire.TxOut{Value: reqOut, PkScript: c18Script('s', r.nin)}}
 	}
@@ -464,10 +543,11 @@ func (r *c18Run) newPublisher(est, relay int64, utxos []*lnwallet.Utxo) {
 	r.est = &c18Estimator{est: est, relay: relay}
 	r.wallet = &c18Wallet{run: r, utxos: utxos}
 	r.tp = NewTxPublisher(TxPublisherConfig{
-		Signer:    &c18Signer{},
-		Wallet:    r.wallet,
-		Estimator: r.est,
-		Notifier:  &chainntnfs.MockChainNotifier{},
+		Signer:     &c18Signer{},
+		Wallet:     r.wallet,
+		Estimator:  r.est,
+		Notifier:   &chainntnfs.MockChainNotifier{},
+		AuxSweeper: r.auxOpt(),
 	})
 	r.chkAns, r.pubAns = nil, nil
 }
@@ -481,7 +561,7 @@ func (r *c18Run) install(a string, req *BumpRequest, nwallet int) {
 	r.lastRes = nil
 
 	rec := r.base(a)
-	w, err := calcSweepTxWeight(req.Inputs, [][]byte{req.DeliveryAddress.DeliveryAddress})
+	w, err := calcSweepTxWeight(req.Inputs, r.outScripts(req.Inputs))
 	if err != nil {
 		r.t.Fatalf("weight: %v", err)
 	}
@@ -510,6 +590,10 @@ func (r *c18Run) install(a string, req *BumpRequest, nwallet int) {
 	rec["cfgvb"] = int64(r.sw.cfg.MaxFeeRate)
 	prevs, budgets, deadlines, parents := []int64{}, []int64{}, []int64{}, [][]int64{}
 	if bs, ok := r.set.(*BudgetInputSet); ok {
+		rec["xbudget"] = int64(bs.extraBudget)
+		if r.aux != nil && c18HasBlob(req.Inputs) {
+			rec["xout"] = r.aux.xout
+		}
 		for _, si := range bs.inputs {
 			prevs = append(prevs, int64(si.params.StartingFeeRate.UnwrapOr(0)))
 			budgets = append(budgets, int64(si.params.Budget))
@@ -524,6 +608,9 @@ func (r *c18Run) install(a string, req *BumpRequest, nwallet int) {
 		}
 	}
 	rec["prevs"], rec["budgets"], rec["deadlines"], rec["parents"] = prevs, budgets, deadlines, parents
+	if r.decorate != nil {
+		r.decorate(rec)
+	}
 	r.out.Emit(rec)
 }
 
@@ -536,7 +623,7 @@ func (r *c18Run) offer(in input.Input, budget int64, prev int64) {
 	r.sw.inputs[in.OutPoint()] = pi
 	r.order = append(r.order, in.OutPoint())
 	if prev > 0 {
-		one, err := NewBudgetInputSet([]SweeperInput{*pi}, r.deadline, fn.None[AuxSweeper]())
+		one, err := NewBudgetInputSet([]SweeperInput{*pi}, r.deadline, r.auxOpt())
 		if err != nil {
 			r.t.Fatal(err)
 		}
@@ -553,6 +640,12 @@ func (r *c18Run) offer(in input.Input, budget int64, prev int64) {
 func (r *c18Run) regroup() (*BumpRequest, int, bool) {
 	r.bumper.reqs, r.agg.sets = nil, nil
 	r.sw.sweepPendingInputs(r.sw.updateSweeperInputs())
+	return r.pickReq()
+}
+
+// pickReq: the (first) request the sweeper handed to its Publisher in the last
+// round, with the set it was built from.
+func (r *c18Run) pickReq() (*BumpRequest, int, bool) {
 	if len(r.bumper.reqs) == 0 || len(r.bumper.reqs[0].Inputs) == 0 {
 		return nil, 0, false
 	}
@@ -603,7 +696,7 @@ func (r *c18Run) newSweeper(deadline int64, maxVb int64, useAgg bool) {
 	r.bumper = &c18Bumper{}
 	r.agg = &c18Agg{run: r}
 	if useAgg {
-		r.agg.real = NewBudgetAggregator(r.est, 100, fn.None[AuxSweeper]())
+		r.agg.real = NewBudgetAggregator(r.est, 100, r.auxOpt())
 	}
 	r.sw = New(&UtxoSweeperConfig{
 		GenSweepScript: func() fn.Result[lnwallet.AddrWithKey] {
@@ -629,6 +722,11 @@ func (r *c18Run) newSweeper(deadline int64, maxVb int64, useAgg bool) {
 // chose the sums and the rates offered before; values and budget are spread
 // over the inputs) and groups them into the request.
 func (r *c18Run) doReq(ev c18Event) {
+	r.aux = nil
+	if ev.XOut > 0 {
+		r.aux = &c18Aux{xout: ev.XOut, xbudget: ev.XBudget}
+		ev.Budget -= ev.XBudget // the inputs' own budgets
+	}
 	r.newPublisher(ev.Est, ev.Relay, nil)
 	r.nin = 0
 	n := ev.NK + ev.NT
@@ -680,7 +778,11 @@ func (r *c18Run) doReq(ev c18Event) {
 		if i >= ev.NK {
 			k = 't'
 		}
-		r.offer(r.mkInput(k, v, -1), bud(ev.NR+i), prev(ev.NR+i))
+		in := r.mkInput(k, v, -1)
+		if r.aux != nil && i == 0 {
+			r.aux.first = in.OutPoint()
+		}
+		r.offer(in, bud(ev.NR+i), prev(ev.NR+i))
 	}
 	for i := 0; i < ev.NA; i++ {
 		r.offer(r.mkAnchor(ev.PW, ev.PF), bud(ev.NR+n+i), prev(ev.NR+n+i))
@@ -717,8 +819,10 @@ func (r *c18Run) doRetry() {
 func (r *c18Run) done() {
 	rec := r.base("Done")
 	rec["event"] = "none"
+	got := false
 	select {
 	case res := <-r.sub:
+		got = true
 		r.lastRes = res
 		rec["event"] = res.Event.String()
 		rec["err"] = c18Err(res.Err)
@@ -730,6 +834,9 @@ func (r *c18Run) done() {
 		r.ffFields(rec, f.in)
 	}
 	r.out.Emit(rec)
+	if got && r.afterDone != nil {
+		r.afterDone()
+	}
 }
 
 // doInit is handleInitialBroadcast + initializeTx, call by call.
@@ -988,6 +1095,11 @@ func (r *c18Run) freeFF(rng *rand.Rand, i int, all bool) {
 	if !roundClass && rng.Intn(3) == 0 { // estimator instead of an explicit start
 		ev.Sopt = -1
 		ev.Est = c18Pick(rng, -1, relay-1, relay, start, end, end+1000, end/2+relay)
+		if rng.Intn(4) == 0 { // a relay fee (mempool min fee) above the ending rate, near and far deadlines
+			ev.MaxRate = relay - 1 - rng.Int63n(relay/2)
+			ev.Ct = c18Pick(rng, ct, 2, 1007, 1008, 1009, 2016)
+			ct = ev.Ct
+		}
 	}
 	if all && !roundClass && rng.Intn(4) == 0 { // outside the main domain: explicit start beyond the ends
 		ev.Sopt = c18Pick(rng, end+1+rng.Int63n(5000), relay-1-rng.Int63n(200))
@@ -1022,7 +1134,7 @@ func (r *c18Run) freePub(rng *rand.Rand, i int, all bool) {
 	h0 := int64(700000 + rng.Intn(1000))
 	ct0 := c18Pick(rng, 0, 1, 2, 3, 4, 6, 10, 25, 144, 1007, 1008, 1010)
 	deadline := h0 + ct0
-	maxVb := c18Pick(rng, 1000, 1000, 1000, 10, 80, 7600) // sweeper.maxfeerate in sat/vb; 1000 is lnd's default
+	maxVb := c18Pick(rng, 1000, 1000, 1000, 10, 80, 7600, 1, 2) // sweeper.maxfeerate in sat/vb; 1000 is lnd's default
 
 	// wallet utxos for top-ups
 	var utxos []*lnwallet.Utxo
@@ -1038,6 +1150,12 @@ func (r *c18Run) freePub(rng *rand.Rand, i int, all bool) {
 		}
 		utxos = append(utxos, &lnwallet.Utxo{AddressType: at, Value: btcutil.Amount(1000 + rng.Int63n(300000)),
 			PkScript: pk, OutPoint: wire.OutPoint{Hash: h, Index: 1}})
+	}
+	// a node with custom channels: the aux sweeper adds an extra output to every
+	// sweep tx and an extra budget to the set
+	r.aux = nil
+	if rng.Intn(6) == 0 {
+		r.aux = &c18Aux{xout: c18Pick(rng, 330, 1000, 5000), xbudget: c18Pick(rng, 0, 7, 300)}
 	}
 	r.newPublisher(est, relay, utxos)
 
@@ -1066,6 +1184,9 @@ func (r *c18Run) freePub(rng *rand.Rand, i int, all bool) {
 		prevRate = func() int64 { return 0 }
 	}
 	add := func(in input.Input, budget int64) {
+		if r.aux != nil && r.aux.first == (wire.OutPoint{}) {
+			r.aux.first = in.OutPoint()
+		}
 		r.offer(in, budget, prevRate())
 	}
 	r.change = c18Script(byte(c18Pick(rng, 'k', 't')), 0x7777)
@@ -1085,7 +1206,7 @@ func (r *c18Run) freePub(rng *rand.Rand, i int, all bool) {
 		for k := 0; k < nreq; k++ {
 			dummy = append(dummy, r.mkInput('k', 1000, 1000))
 		}
-		w, err := calcSweepTxWeight(dummy, [][]byte{r.change})
+		w, err := calcSweepTxWeight(dummy, r.outScripts(dummy))
 		if err != nil {
 			r.t.Fatal(err)
 		}
@@ -1136,7 +1257,9 @@ func (r *c18Run) freePub(rng *rand.Rand, i int, all bool) {
 	// an anchor that carries the info of its unconfirmed parent (CPFP of a force
 	// close): the parent pays nothing, less than the relay fee, a rate inside
 	// the ramp, or more than the maximum
-	if !tuned && rng.Intn(3) == 0 {
+	// (not on a node with custom channels: every input offered there carries a
+	// resolution blob, so that the aux sweeper has an output to add to any set)
+	if !tuned && r.aux == nil && rng.Intn(3) == 0 {
 		pw := c18Pick(rng, 724, 1116, 2500, 9000)
 		prate := c18Pick(rng, 0, relay/2, relay+rng.Int63n(3000), 250*maxVb/2, 250*maxVb+1000)
 		pf := int64(chainfee.SatPerKWeight(prate).FeeForWeight(lntypes.WeightUnit(pw)))
@@ -1149,7 +1272,7 @@ func (r *c18Run) freePub(rng *rand.Rand, i int, all bool) {
 	if !ok {
 		return
 	}
-	w0, err := calcSweepTxWeight(req0.Inputs, [][]byte{r.change})
+	w0, err := calcSweepTxWeight(req0.Inputs, r.outScripts(req0.Inputs))
 	if err != nil {
 		r.t.Fatal(err)
 	}
@@ -1192,7 +1315,7 @@ func (r *c18Run) freePub(rng *rand.Rand, i int, all bool) {
 	if !ok {
 		return
 	}
-	w, err := calcSweepTxWeight(req.Inputs, [][]byte{r.change})
+	w, err := calcSweepTxWeight(req.Inputs, r.outScripts(req.Inputs))
 	if err != nil {
 		r.t.Fatal(err)
 	}
@@ -1200,10 +1323,10 @@ func (r *c18Run) freePub(rng *rand.Rand, i int, all bool) {
 		return
 	}
 	if !all {
-		// the main domain: the ending rate the code computes is payable, and
-		// the floor is not above the ceiling (see SweepFee.tla, deviations)
+		// the main domain: the ending rate the code computes is payable (see
+		// SweepFee.tla, deviations); the floor may be above the ceiling
 		a, _ := req.MaxFeeRateAllowed()
-		if a.FeeForWeight(w) > req.Budget || int64(a) < relay {
+		if a.FeeForWeight(w) > req.Budget {
 			return
 		}
 	}
